@@ -316,15 +316,16 @@ theorem structStepK_ok {α : Type} (S : Sem) (decl : Fields) (slots : List (Opti
               exact ⟨_, h, fun K' => by simp only [structStepK, hsa, hfb, hx]⟩
 
 theorem struct_field_step (p : Path) (c : Cfg) (root : Bool) (gh : Nat) (k : BLeaf) (v : BNode) (tail : List Tok)
-    (decl : Fields) (slots : List (Option String)) (g : Nat) (hk : plainTok k.tok = true) (hv : plainN v = true)
-    (hfit1 : ∀ i name tk fty, whichOf (binSem c) decl k = .ok (some i) → decl.get? i = some (name, tk, fty) →
+    (decl : Fields) (bt : Bool) (W : Res (Option Nat)) (slots : List (Option String)) (g : Nat)
+    (hk : plainTok k.tok = true) (hv : plainN v = true) (hW : seqFieldKey c decl bt k.tok = W)
+    (hfit1 : ∀ i name tk fty, W = .ok (some i) → decl.get? i = some (name, tk, fty) →
         fitsN c v fty = true)
     (hb : gh + 2 + (tokensNode v).length + tySize.fieldsSize decl ≤ g) :
-    deStruct p c (g + 1) decl false root (ghostToks gh ++ k.tok :: .equal :: (tokensNode v ++ tail)) slots =
-      structStepK (binSem c) decl slots v (whichOf (binSem c) decl k) (fun sl => deStruct p c g decl false root tail sl) := by
+    deStruct p c (g + 1) decl bt root (ghostToks gh ++ k.tok :: .equal :: (tokensNode v ++ tail)) slots =
+      structStepK (binSem c) decl slots v W (fun sl => deStruct p c g decl bt root tail sl) := by
   have hkey := nextKey_field p root k hk (.equal :: (tokensNode v ++ tail)) gh (g + 1) (by omega)
   have hn := normTok_plain p .any k.tok (.equal :: (tokensNode v ++ tail)) hk
-  rw [deStruct_some p c g decl false root _ _ _ _ _ slots hkey hn, seqFieldKey_which c decl k hk]
+  rw [deStruct_some p c g decl bt root _ _ _ _ _ slots hkey hn, hW]
   have hnv := nextValue_node p v hv tail
   have hvv := fun ty (hf : fitsN c v ty = true) (hb' : (tokensNode v).length + tySize ty ≤ g) =>
     lift_ty_seq p c v tail
@@ -332,7 +333,7 @@ theorem struct_field_step (p : Path) (c : Cfg) (root : Bool) (gh : Nat) (k : BLe
   generalize valueTok p v tail = vtk at hnv hvv
   obtain ⟨t, tl⟩ := vtk
   simp only at hvv
-  cases hw : whichOf (binSem c) decl k with
+  cases hw : W with
   | error e => simp [seqStructStep, structStepK]
   | ok w =>
     cases w with
@@ -424,23 +425,24 @@ theorem map_cut_field (p : Path) (c : Cfg) (vt : Ty) (gh : Nat) (k : BLeaf) (v :
           exact trunc_value p c v vt hv hfit π ρ hsplit hρ t tl hfr _ x r' hdt
 
 theorem struct_cut_field (p : Path) (c : Cfg) (decl : Fields) (gh : Nat) (k : BLeaf) (v : BNode) (l : List Tok)
-    (hk : plainTok k.tok = true) (hv : plainN v = true)
-    (hfit1 : ∀ i name tk fty, whichOf (binSem c) decl k = .ok (some i) → decl.get? i = some (name, tk, fty) →
+    (bt : Bool) (W : Res (Option Nat))
+    (hk : plainTok k.tok = true) (hv : plainN v = true) (hW : seqFieldKey c decl bt k.tok = W)
+    (hfit1 : ∀ i name tk fty, W = .ok (some i) → decl.get? i = some (name, tk, fty) →
         fitsN c v fty = true)
     (hc : FieldCut gh k v l) (f : Nat) (slots : List (Option String)) (x : String) (r : List Tok)
-    (h : deStruct p c f decl false true l slots = .ok (x, r)) : ∃ j, l = ghostToks j ∧ structFinish decl slots [] = .ok x := by
-  have h' := (fuel_mono p c f).2.2.2 (f + l.length + gh + 3) (by omega) decl false true l slots _ h
+    (h : deStruct p c f decl bt true l slots = .ok (x, r)) : ∃ j, l = ghostToks j ∧ structFinish decl slots [] = .ok x := by
+  have h' := (fuel_mono p c f).2.2.2 (f + l.length + gh + 3) (by omega) decl bt true l slots _ h
   generalize hF : f + l.length + gh + 3 = F at h'
   obtain ⟨G, rfl⟩ : ∃ G, F = G + 1 := ⟨F - 1, by omega⟩
   have hbad : ∀ (π ρ : List Tok), π ++ ρ = tokensNode v → π ≠ [] → ρ ≠ [] →
-      seqStructStep p c G decl false true slots (.equal :: π) (whichOf (binSem c) decl k) ≠ .ok (x, r) := by
+      seqStructStep p c G decl bt true slots (.equal :: π) W ≠ .ok (x, r) := by
     intro π ρ hsplit hπ hρ hs
     have hT : ∀ ty, fitsN c v ty = true → ∀ t tl, nextValue p (.equal :: π) = .ok (t, tl) →
         ∀ x' r', deTok p c G ty t tl ≠ .ok (x', r') := by
       intro ty hf' t tl hnv x' r' hdt
       rw [nextValue_eq p π] at hnv
       exact trunc_value p c v ty hv hf' π ρ hsplit hρ t tl hnv _ x' r' hdt
-    cases hw : whichOf (binSem c) decl k with
+    cases hw : W with
     | error e => simp [hw, seqStructStep] at hs
     | ok w =>
       cases w with
@@ -474,9 +476,9 @@ theorem struct_cut_field (p : Path) (c : Cfg) (decl : Fields) (gh : Nat) (k : BL
                 | error e => simp [hnv, hdt] at hs
                 | ok z => exact hT fty (hfit1 i name tk fty hw hfb) t tl hnv z.1 z.2 hdt
   have hshort : ∀ tl, nextValue p tl = .error .other →
-      seqStructStep p c G decl false true slots tl (whichOf (binSem c) decl k) ≠ .ok (x, r) := by
+      seqStructStep p c G decl bt true slots tl W ≠ .ok (x, r) := by
     intro tl hnv hs
-    cases hw : whichOf (binSem c) decl k with
+    cases hw : W with
     | error e => simp [hw, seqStructStep] at hs
     | ok w =>
       cases w with
@@ -493,7 +495,7 @@ theorem struct_cut_field (p : Path) (c : Cfg) (decl : Fields) (gh : Nat) (k : BL
             cases a <;> simp [hsa, hfb, hnv] at hs
   cases hc with
   | ghosts j =>
-    rw [deStruct_none p c _ decl false true _ [] slots (nextKey_ghosts_eof p j _ (by simp [ghost_len] at hF; omega))] at h'
+    rw [deStruct_none p c _ decl bt true _ [] slots (nextKey_ghosts_eof p j _ (by simp [ghost_len] at hF; omega))] at h'
     refine ⟨j, rfl, ?_⟩
     cases hsf : structFinish decl slots [] <;> simp [hsf, Except.map] at h' ⊢
     exact h'.1
@@ -507,19 +509,19 @@ theorem struct_cut_field (p : Path) (c : Cfg) (decl : Fields) (gh : Nat) (k : BL
     exfalso
     have hkey := nextKey_field p true k hk [] gh (G + 1) (by omega)
     have hn := normTok_plain p .any k.tok [] hk
-    rw [deStruct_some p c G decl false true _ _ _ _ _ slots hkey hn, seqFieldKey_which c decl k hk] at h'
+    rw [deStruct_some p c G decl bt true _ _ _ _ _ slots hkey hn, hW] at h'
     exact hshort _ (nextValue_nil p) h'
   | eq =>
     exfalso
     have hkey := nextKey_field p true k hk [.equal] gh (G + 1) (by omega)
     have hn := normTok_plain p .any k.tok [.equal] hk
-    rw [deStruct_some p c G decl false true _ _ _ _ _ slots hkey hn, seqFieldKey_which c decl k hk] at h'
+    rw [deStruct_some p c G decl bt true _ _ _ _ _ slots hkey hn, hW] at h'
     exact hshort _ (nextValue_eq_nil p) h'
   | val π ρ hπ hρ hsplit =>
     exfalso
     have hkey := nextKey_field p true k hk (.equal :: π) gh (G + 1) (by omega)
     have hn := normTok_plain p .any k.tok (.equal :: π) hk
-    rw [deStruct_some p c G decl false true _ _ _ _ _ slots hkey hn, seqFieldKey_which c decl k hk] at h'
+    rw [deStruct_some p c G decl bt true _ _ _ _ _ slots hkey hn, hW] at h'
     exact hbad π ρ hsplit hπ hρ h'
 
 /-! ### C19: the accepted cuts of a nested document are the top-level field boundaries -/
@@ -580,11 +582,79 @@ theorem map_cut (p : Path) (c : Cfg) (vt : Ty) :
         · simp only [firstK, field_toks, e1]; simp
         · simp only [firstK, valMapG_cons, hK]; exact e2
 
-theorem struct_cut (p : Path) (c : Cfg) (decl : Fields) :
-    ∀ (m : Nat) (d : BFields), d.len = m → plainF d = true → fitsStructF c d decl = true → ∀ (n f : Nat) slots x r,
-      deStruct p c f decl false true ((tokensFields d).take n) slots = .ok (x, r) →
+/-- how a struct loop finds the field a key names: plain structs (`bt = false`, `whichOf`) and token-attribute
+structs (`bt = true`, `whichTok`: token ids by their declared token). -/
+structure KeyRule (c : Cfg) (decl : Fields) (bt : Bool) (wf : BLeaf → Res (Option Nat)) : Prop where
+  key : ∀ k, plainTok k.tok = true → seqFieldKey c decl bt k.tok = wf k
+  spec : ∀ g k v rest slots, valStructG (binSem c) (.cons g k v rest) decl bt slots =
+    structStepK (binSem c) decl slots v (wf k) (fun sl => valStructG (binSem c) rest decl bt sl)
+
+theorem keyRule_plain (c : Cfg) (decl : Fields) : KeyRule c decl false (whichOf (binSem c) decl) :=
+  ⟨fun k hk => seqFieldKey_which c decl k hk, fun g k v rest slots => by rw [valStructG_cons_false, structStepSpec_K]⟩
+
+theorem structStepSpecT_K (S : Sem) (rest : BFields) (decl : Fields) (slots : List (Option String)) (v : BNode)
+    (w : Res (Option Nat)) :
+    structStepSpecT S rest decl slots v w = structStepK S decl slots v w (fun sl => valStructG S rest decl true sl) := by
+  unfold structStepSpecT structStepK
+  cases w with
+  | error e => rfl
+  | ok o => cases o <;> rfl
+
+theorem keyRule_tok (c : Cfg) (decl : Fields) : KeyRule c decl true (whichTok (binSem c) decl) :=
+  ⟨fun k hk => seqFieldKey_whichT c decl k hk, fun g k v rest slots => by rw [valStructG_cons_true, structStepSpecT_K]⟩
+
+/-- the value of every key that names a declared field fits that field's type. -/
+def FitsW (c : Cfg) (decl : Fields) (wf : BLeaf → Res (Option Nat)) : BFields → Prop
+  | .nil => True
+  | .cons _ k v rest =>
+    (∀ i name tk fty, wf k = .ok (some i) → decl.get? i = some (name, tk, fty) → fitsN c v fty = true) ∧
+    FitsW c decl wf rest
+
+theorem fitsW_plain (c : Cfg) (decl : Fields) : ∀ (m : Nat) (d : BFields), d.len = m → fitsStructF c d decl = true →
+    FitsW c decl (whichOf (binSem c) decl) d := by
+  intro m
+  induction m with
+  | zero => intro d hm _; cases d with
+    | nil => trivial
+    | cons g k v rest => simp [BFields.len] at hm
+  | succ m ih =>
+    intro d hm hfit
+    cases d with
+    | nil => trivial
+    | cons g k v rest =>
+      simp only [fitsStructF, Bool.and_eq_true] at hfit
+      refine ⟨?_, ih rest (by simp [BFields.len] at hm; exact hm) hfit.2⟩
+      intro i name tk fty h1 h2
+      have := hfit.1
+      unfold whichOf at h1
+      simp only [binSem] at h1
+      rw [h1] at this
+      simpa [h2] using this
+
+theorem fitsW_tok (c : Cfg) (decl : Fields) : ∀ (m : Nat) (d : BFields), d.len = m → fitsTokF c d decl = true →
+    FitsW c decl (whichTok (binSem c) decl) d := by
+  intro m
+  induction m with
+  | zero => intro d hm _; cases d with
+    | nil => trivial
+    | cons g k v rest => simp [BFields.len] at hm
+  | succ m ih =>
+    intro d hm hfit
+    cases d with
+    | nil => trivial
+    | cons g k v rest =>
+      simp only [fitsTokF, Bool.and_eq_true] at hfit
+      refine ⟨?_, ih rest (by simp [BFields.len] at hm; exact hm) hfit.2⟩
+      intro i name tk fty h1 h2
+      have := hfit.1
+      rw [h1] at this
+      simpa [h2] using this
+
+theorem struct_cut (p : Path) (c : Cfg) (decl : Fields) (bt : Bool) (wf : BLeaf → Res (Option Nat)) (hR : KeyRule c decl bt wf) :
+    ∀ (m : Nat) (d : BFields), d.len = m → plainF d = true → FitsW c decl wf d → ∀ (n f : Nat) slots x r,
+      deStruct p c f decl bt true ((tokensFields d).take n) slots = .ok (x, r) →
       ∃ k j, (tokensFields d).take n = tokensFields (firstK k d) ++ ghostToks j ∧
-        valStructG (binSem c) (firstK k d) decl false slots = .ok x := by
+        valStructG (binSem c) (firstK k d) decl bt slots = .ok x := by
   intro m
   induction m with
   | zero =>
@@ -596,7 +666,7 @@ theorem struct_cut (p : Path) (c : Cfg) (decl : Fields) :
       | zero => simp [deStruct] at h
       | succ f =>
         simp only [tokensFields, List.take_nil] at h
-        rw [deStruct_none p c f decl false true [] [] slots (nextKey_eof p f)] at h
+        rw [deStruct_none p c f decl bt true [] [] slots (nextKey_eof p f)] at h
         refine ⟨0, 0, by simp [tokensFields, firstK, ghostToks], ?_⟩
         simp only [firstK, valStructG]
         cases hsf : structFinish decl slots [] <;> simp [hsf, Except.map] at h ⊢
@@ -608,35 +678,27 @@ theorem struct_cut (p : Path) (c : Cfg) (decl : Fields) :
     | cons gh k v rest =>
       have hrm : rest.len = m := by simp [BFields.len] at hm; exact hm
       simp only [plainF, Bool.and_eq_true] at hpl
-      simp only [fitsStructF, Bool.and_eq_true] at hfit
-      have hfit1 : ∀ i name tk fty, whichOf (binSem c) decl k = .ok (some i) → decl.get? i = some (name, tk, fty) →
-          fitsN c v fty = true := by
-        intro i name tk fty h1 h2
-        have := hfit.1
-        unfold whichOf at h1
-        simp only [binSem] at h1
-        rw [h1] at this
-        simpa [h2] using this
+      have hfit1 := hfit.1
       rw [field_toks] at h ⊢
       by_cases hn : n < 2 * gh + 2 + (tokensNode v).length
-      · obtain ⟨j, e1, e2⟩ := struct_cut_field p c decl gh k v _ hpl.1.1 hpl.1.2 hfit1
+      · obtain ⟨j, e1, e2⟩ := struct_cut_field p c decl gh k v _ bt (wf k) hpl.1.1 hpl.1.2 (hR.key k hpl.1.1) hfit1
           (field_cut_cases k v (tokensFields rest) gh n hn) f slots x r h
         exact ⟨0, j, by simp [firstK, tokensFields, e1], by simp [firstK, valStructG, e2]⟩
       · rw [take_field gh k v _ n (by omega)] at h ⊢
         generalize n - (2 * gh + 2 + (tokensNode v).length) = n' at h ⊢
         have h' := (fuel_mono p c f).2.2.2 (f + gh + 2 + (tokensNode v).length + tySize.fieldsSize decl + 1) (by omega)
-          decl false true _ slots _ h
+          decl bt true _ slots _ h
         rw [show f + gh + 2 + (tokensNode v).length + tySize.fieldsSize decl + 1 =
             (f + gh + 2 + (tokensNode v).length + tySize.fieldsSize decl) + 1 from rfl,
-          struct_field_step p c true gh k v _ decl slots _ hpl.1.1 hpl.1.2 hfit1 (by omega)] at h'
+          struct_field_step p c true gh k v _ decl bt (wf k) slots _ hpl.1.1 hpl.1.2 (hR.key k hpl.1.1) hfit1 (by omega)] at h'
         obtain ⟨sl, ha, hK⟩ := structStepK_ok _ decl slots v _ _ _ h'
         obtain ⟨k', j, e1, e2⟩ := ih rest hrm hpl.2 hfit.2 n' _ sl x r ha
         refine ⟨k' + 1, j, ?_, ?_⟩
         · simp only [firstK, field_toks, e1]; simp
-        · simp only [firstK, valStructG_cons_false, structStepSpec_K, hK]; exact e2
+        · simp only [firstK]; rw [hR.spec, hK]; exact e2
 
 /-- (C19, binary deserializers, NESTED documents, both sequential paths) the lexemes of a document
-(leaves not the reserved lexeme, `plainF`; root request a map or struct that fits it, `fitsRoot`)
+(leaves not the reserved lexeme, `plainF`; root request a map, a struct or a token-attribute struct that fits it, `fitsRoot`)
 cut after ANY `n` lexemes.  If the deserializer still answers `ok v`, then the cut lies
 between two top-level fields - after `k` complete fields and `j` complete ghost objects - and `v` is
 the reference value of the document made of those `k` fields.  So a cut after a key, after its `=`,
@@ -649,7 +711,19 @@ theorem C19_bin_de_cut (p : Path) (c : Cfg) (ty : RootTy) (d : BDoc) (hpl : plai
   unfold deSeqRoot tokensOf at h
   unfold tokensOf
   cases ty with
-  | tok fs => simp [fitsRoot] at hfit
+  | tok decl =>
+    simp only [fitsRoot] at hfit
+    dsimp only at h
+    generalize 2 * ((tokensFields d).take n).length + rootSize (.tok decl) + 8 = F at h
+    cases hx : deStruct p c F decl true true ((tokensFields d).take n) (slotsInit decl) with
+    | error e => simp [hx, Except.map] at h
+    | ok y =>
+      obtain ⟨x, r⟩ := y
+      rw [hx] at h
+      obtain ⟨k, j, e1, e2⟩ := struct_cut p c decl true _ (keyRule_tok c decl) d.len d rfl hpl (fitsW_tok c decl d.len d rfl hfit) n _ _ x r hx
+      refine ⟨k, j, e1, ?_⟩
+      simp only [valueOfBin, valueOfG, e2]
+      exact h
   | plain t =>
     cases t with
     | map vt =>
@@ -674,7 +748,7 @@ theorem C19_bin_de_cut (p : Path) (c : Cfg) (ty : RootTy) (d : BDoc) (hpl : plai
       | ok y =>
         obtain ⟨x, r⟩ := y
         rw [hx] at h
-        obtain ⟨k, j, e1, e2⟩ := struct_cut p c decl d.len d rfl hpl hfit n _ _ x r hx
+        obtain ⟨k, j, e1, e2⟩ := struct_cut p c decl false _ (keyRule_plain c decl) d.len d rfl hpl (fitsW_plain c decl d.len d rfl hfit) n _ _ x r hx
         refine ⟨k, j, e1, ?_⟩
         simp only [valueOfBin, valueOfG, e2]
         exact h
@@ -790,10 +864,11 @@ theorem map_cont (p : Path) (c : Cfg) (vt : Ty) (tail : List Tok) :
       obtain ⟨a, ha, _⟩ := mapStepK_ok c k v vt acc _ _ h'
       exact ih rest hrm hpl.2 hfit.2 _ a y ha
 
-theorem struct_cont (p : Path) (c : Cfg) (decl : Fields) (tail : List Tok) :
-    ∀ (m : Nat) (d : BFields), d.len = m → plainF d = true → fitsStructF c d decl = true → ∀ (f : Nat) slots y,
-      deStruct p c f decl false true (tokensFields d ++ tail) slots = .ok y →
-      ∃ f' sl, deStruct p c f' decl false true tail sl = .ok y := by
+theorem struct_cont (p : Path) (c : Cfg) (decl : Fields) (bt : Bool) (wf : BLeaf → Res (Option Nat)) (hR : KeyRule c decl bt wf)
+    (tail : List Tok) :
+    ∀ (m : Nat) (d : BFields), d.len = m → plainF d = true → FitsW c decl wf d → ∀ (f : Nat) slots y,
+      deStruct p c f decl bt true (tokensFields d ++ tail) slots = .ok y →
+      ∃ f' sl, deStruct p c f' decl bt true tail sl = .ok y := by
   intro m
   induction m with
   | zero =>
@@ -808,23 +883,15 @@ theorem struct_cont (p : Path) (c : Cfg) (decl : Fields) (tail : List Tok) :
     | cons gh k v rest =>
       have hrm : rest.len = m := by simp [BFields.len] at hm; exact hm
       simp only [plainF, Bool.and_eq_true] at hpl
-      simp only [fitsStructF, Bool.and_eq_true] at hfit
-      have hfit1 : ∀ i name tk fty, whichOf (binSem c) decl k = .ok (some i) → decl.get? i = some (name, tk, fty) →
-          fitsN c v fty = true := by
-        intro i name tk fty h1 h2
-        have := hfit.1
-        unfold whichOf at h1
-        simp only [binSem] at h1
-        rw [h1] at this
-        simpa [h2] using this
+      have hfit1 := hfit.1
       have e : tokensFields (.cons gh k v rest) ++ tail =
           ghostToks gh ++ k.tok :: .equal :: (tokensNode v ++ (tokensFields rest ++ tail)) := by simp [tokensFields]
       rw [e] at h
       have h' := (fuel_mono p c f).2.2.2 (f + gh + 2 + (tokensNode v).length + tySize.fieldsSize decl + 1) (by omega)
-        decl false true _ slots _ h
+        decl bt true _ slots _ h
       rw [show f + gh + 2 + (tokensNode v).length + tySize.fieldsSize decl + 1 =
           (f + gh + 2 + (tokensNode v).length + tySize.fieldsSize decl) + 1 from rfl,
-        struct_field_step p c true gh k v _ decl slots _ hpl.1.1 hpl.1.2 hfit1 (by omega)] at h'
+        struct_field_step p c true gh k v _ decl bt (wf k) slots _ hpl.1.1 hpl.1.2 (hR.key k hpl.1.1) hfit1 (by omega)] at h'
       obtain ⟨sl, ha, _⟩ := structStepK_ok _ decl slots v _ _ _ h'
       exact ih rest hrm hpl.2 hfit.2 _ sl y ha
 
@@ -852,21 +919,23 @@ theorem map_fault (p : Path) (c : Cfg) (vt : Ty) (d : BFields) (hpl : plainF d =
     obtain ⟨f', a, h'⟩ := map_cont p c vt (m :: junk) d.len d rfl hpl hfit f [] y h
     exact map_fault_head p c vt m hm junk f' a y h'
 
-theorem struct_fault (p : Path) (c : Cfg) (decl : Fields) (d : BFields) (hpl : plainF d = true)
-    (hfit : fitsStructF c d decl = true) (n : Nat) (m : Tok) (hm : Faulty p m) (junk : List Tok) (f : Nat)
+theorem struct_fault (p : Path) (c : Cfg) (decl : Fields) (bt : Bool) (wf : BLeaf → Res (Option Nat)) (hR : KeyRule c decl bt wf)
+    (d : BFields) (hpl : plainF d = true) (hfit : FitsW c decl wf d)
+    (hfull : ∀ f slots, (tokensFields d).length + 1 + tySize.fieldsSize decl ≤ f →
+      deStruct p c f decl bt true (tokensFields d ++ []) slots = (valStructG (binSem c) d decl bt slots).map (fun v => (v, [])))
+    (n : Nat) (m : Tok) (hm : Faulty p m) (junk : List Tok) (f : Nat)
     (slots : List (Option String)) (y : String × List Tok) :
-    deStruct p c f decl false true ((tokensFields d).take n ++ m :: junk) slots ≠ .ok y := by
+    deStruct p c f decl bt true ((tokensFields d).take n ++ m :: junk) slots ≠ .ok y := by
   intro h
   by_cases hn : n < (tokensFields d).length
   · obtain ⟨x, r⟩ := y
     have hr : Rel2 (m :: junk) ((tokensFields d).drop n) ((tokensFields d).take n ++ m :: junk) (tokensFields d) :=
       ⟨(tokensFields d).take n, rfl, (List.take_append_drop n _).symm, (unbroken_fields d).take n⟩
-    rcases (cut_all (hm.dead junk) ((tokensFields d).drop n) c f).2.2.2 decl false true _ _ slots x r hr h with ⟨r2', g, q, _, e2, _⟩ | ⟨e, _⟩
-    · have g' := (fuel_mono p c f).2.2.2 (f + (tokensFields d).length + 1 + tySize.fieldsSize decl) (by omega) decl false true _ slots _ g
-      have hs := sv_struct c d p true [] [] decl (f + (tokensFields d).length + 1 + tySize.fieldsSize decl) slots
-        (Or.inr ⟨rfl, rfl, rfl⟩) hpl hfit (by omega)
+    rcases (cut_all (hm.dead junk) ((tokensFields d).drop n) c f).2.2.2 decl bt true _ _ slots x r hr h with ⟨r2', g, q, _, e2, _⟩ | ⟨e, _⟩
+    · have g' := (fuel_mono p c f).2.2.2 (f + (tokensFields d).length + 1 + tySize.fieldsSize decl) (by omega) decl bt true _ slots _ g
+      have hs := hfull (f + (tokensFields d).length + 1 + tySize.fieldsSize decl) slots (by omega)
       rw [List.append_nil, g'] at hs
-      cases hv : valStructG (binSem c) d decl false slots with
+      cases hv : valStructG (binSem c) d decl bt slots with
       | error e => simp [hv, Except.map] at hs
       | ok its =>
         simp [hv, Except.map] at hs
@@ -874,11 +943,11 @@ theorem struct_fault (p : Path) (c : Cfg) (decl : Fields) (d : BFields) (hpl : p
         simp at hl; omega
     · simp at e
   · rw [List.take_of_length_le (by omega)] at h
-    obtain ⟨f', sl, h'⟩ := struct_cont p c decl (m :: junk) d.len d rfl hpl hfit f slots y h
-    exact struct_fault_head p c decl false m hm junk f' sl y h'
+    obtain ⟨f', sl, h'⟩ := struct_cont p c decl bt wf hR (m :: junk) d.len d rfl hpl hfit f slots y h
+    exact struct_fault_head p c decl bt m hm junk f' sl y h'
 
 /-- (C20, binary deserializers, NESTED documents, both sequential paths) the lexemes of a document
-(`plainF`, root request a map or struct that fits) cut after ANY `n` lexemes
+(`plainF`, root request a map, struct or token-attribute struct that fits) cut after ANY `n` lexemes
 (`n` past the end: the whole document) and followed by a failure of the lexeme source (and then by
 anything).  The deserializer never answers `ok`: a failure of the source is never swallowed. -/
 theorem C20_bin_de_fault (p : Path) (c : Cfg) (ty : RootTy) (d : BDoc) (hpl : plainF d = true)
@@ -887,7 +956,16 @@ theorem C20_bin_de_fault (p : Path) (c : Cfg) (ty : RootTy) (d : BDoc) (hpl : pl
   intro h
   unfold deSeqRoot tokensOf at h
   cases ty with
-  | tok fs => simp [fitsRoot] at hfit
+  | tok decl =>
+    simp only [fitsRoot] at hfit
+    dsimp only at h
+    generalize 2 * ((tokensFields d).take n ++ m :: junk).length + rootSize (.tok decl) + 8 = F at h
+    cases hx : deStruct p c F decl true true ((tokensFields d).take n ++ m :: junk) (slotsInit decl) with
+    | error e => simp [hx, Except.map] at h
+    | ok y =>
+      exact struct_fault p c decl true _ (keyRule_tok c decl) d hpl (fitsW_tok c decl d.len d rfl hfit)
+        (fun f slots hb => sv_struct_tok c d.len d rfl p true [] [] decl f slots (Or.inr ⟨rfl, rfl, rfl⟩) hpl hfit hb)
+        n m hm junk F _ y hx
   | plain t =>
     cases t with
     | map vt =>
@@ -903,7 +981,10 @@ theorem C20_bin_de_fault (p : Path) (c : Cfg) (ty : RootTy) (d : BDoc) (hpl : pl
       generalize 2 * ((tokensFields d).take n ++ m :: junk).length + rootSize (.plain (.struct decl)) + 8 = F at h
       cases hx : deStruct p c F decl false true ((tokensFields d).take n ++ m :: junk) (slotsInit decl) with
       | error e => simp [hx, Except.map] at h
-      | ok y => exact struct_fault p c decl d hpl hfit n m hm junk F _ y hx
+      | ok y =>
+        exact struct_fault p c decl false _ (keyRule_plain c decl) d hpl (fitsW_plain c decl d.len d rfl hfit)
+          (fun f slots hb => sv_struct c d p true [] [] decl f slots (Or.inr ⟨rfl, rfl, rfl⟩) hpl hfit hb)
+          n m hm junk F _ y hx
     | _ => simp at h
 
 /-! ### the hypotheses are satisfiable, and the statements are not vacuous -/
